@@ -117,10 +117,15 @@ def build_cont(c):
     return VmCont('vmc_' + t, **lk), ('cont', mk)
 
 
-def lib_norm(v):
-    """Comparable form of a library value (mirrors refvm.norm)."""
+def lib_norm(v, _seen=()):
+    """Comparable form of a library value (mirrors refvm.norm).  A tuple that contains itself (possible only through
+    aliasing inside the library) is reported as such instead of being followed."""
     if v is None or (isinstance(v, int) and not isinstance(v, bool)):
         return v
+    if isinstance(v, VmTuple):
+        if id(v) in _seen or len(_seen) > 64:
+            return ('tuple-containing-itself',)
+        return ('tuple', tuple(lib_norm(x, _seen + (id(v),)) for x in v.list))
     if isinstance(v, Cell):
         return ('cell', v.hash.hex())
     if isinstance(v, Builder):
@@ -150,12 +155,12 @@ def lib_norm_cont(c):
     return tuple(sorted(out.items(), key=lambda x: x[0]))
 
 
-def deep_snapshot(vals):
+def deep_snapshot(vals, _depth=0):
     """Everything observable about caller-held values (identity-free)."""
     out = []
     for v in vals:
         if isinstance(v, VmTuple):
-            out.append(('tuple', len(v.list), deep_snapshot(v.list)))
+            out.append(('tuple', len(v.list), deep_snapshot(v.list, _depth + 1) if _depth < 64 else 'too-deep'))
         elif isinstance(v, Builder):
             out.append(('builder', to01(v.bits), tuple(r.hash for r in v.refs)))
         elif isinstance(v, VmCont):
